@@ -327,11 +327,12 @@ static void gen_c03_extended(std::vector<Case>& cases) {
 struct TapCase { bytes control, script, program; std::string label, klass; };
 static void gen_c05(const std::string& tier, std::vector<TapCase>& out) {
     bool th = tier != "quick";
-    std::vector<int> ms; if (th) for (int m = 0; m <= 128; m++) ms.push_back(m); else ms = {0, 1, 2, 3, 64, 127, 128};
+    std::vector<int> ms; if (th) for (int m = 0; m <= 128; m++) ms.push_back(m); else for (int m = 0; m <= 128; m++) ms.push_back(m);   // every path length in both tiers; the corruption families of the lengths outside {0..3, 64, 127, 128} are thorough-only
     gen::Key ik = gen::make_key(1);
-    std::vector<bytes> scripts = {bytes{}, bytes{0x51}, bytes(252, 0x61), bytes(253, 0x61)};
+    std::vector<bytes> scripts = {bytes{}, bytes{0x51}, bytes(252, 0x61), bytes(253, 0x61), bytes(254, 0x61), bytes(255, 0x61), bytes(256, 0x61), bytes(65535, 0x61), bytes(65536, 0x61), bytes(65537, 0x61), bytes(100000, 0x61)};
+    auto small_m = [](int m) { return m <= 3 || m == 64 || m == 127 || m == 128; };
     for (int m : ms) for (size_t si = 0; si < scripts.size(); si++) {
-        if (si >= 2 && m > 3 && !th) continue;
+        if (si >= 2 && m > 3 && !(th && si < 4)) continue;
         for (int lv : {0xc0, 0xc2, 0x00, 0xfe, 0x50}) {
             if (lv != 0xc0 && (m > 2 || si > 1)) continue;
             const bytes& script = scripts[si];
@@ -351,6 +352,7 @@ static void gen_c05(const std::string& tier, std::vector<TapCase>& out) {
             out.push_back({control, script, q, base + " valid", "valid"});
             // single-field corruptions
             { bytes c = control; c[0] ^= 1; out.push_back({c, script, q, base + " parity flipped", "parity"}); }
+            if (!th && !small_m(m)) { if (m >= 1) { bytes c = control; c[33 + 32 * (m / 2) + 7] ^= 1; out.push_back({c, script, q, base + " node " + std::to_string(m / 2), "node"}); } continue; }
             if (m <= 3 || th) {
                 for (int bit = 1; bit < 8; bit++) { bytes c = control; c[0] ^= uint8_t(1 << bit); out.push_back({c, script, q, base + " control byte bit " + std::to_string(bit), "leaf-version"}); }
                 for (size_t by = 1; by < 33; by += (th ? 1 : 8)) { bytes c = control; c[by] ^= 0x10; out.push_back({c, script, q, base + " internal key byte " + std::to_string(by), "internal-key"}); }
@@ -365,11 +367,11 @@ static void gen_c05(const std::string& tier, std::vector<TapCase>& out) {
     // nodes that differ from the running hash in ONE byte, by +1 or -1, at every byte position: the ordering of the pair is decided by exactly
     // that byte (a comparison that looks at a prefix only, stops at a zero byte or treats bytes as signed goes wrong for some position), on
     // the first and on the second level of the path; and the same commitment with the pair hashed in the wrong order, which must fail
-    for (const bytes& script : {bytes{0x51}, bytes{}}) for (int level = 0; level < 2; level++) for (int pos = 0; pos < 32; pos++) for (int delta : {-1, 1})
+    for (const bytes& script : {bytes{0x51}, bytes{}}) for (int level : {0, 1, 2, 9, 33, 100}) for (int pos = 0; pos < 32; pos++) for (int delta : {-1, 1})
       for (int force : {-1}) {
         bytes k = tapleaf_hash(0xc0, script);
         std::vector<bytes> path;
-        if (level == 1) { bytes n0 = sha256(bytes{'n', '0'}); path.push_back(n0); k = tapbranch_hash(k, n0); }
+        for (int l = 0; l < level; l++) { bytes n0 = sha256(bytes{'n', uint8_t('0' + l)}); path.push_back(n0); k = tapbranch_hash(k, n0); }
         // `force`: the deciding byte of the running hash is first set to a given value in the NODE only when that keeps the one-byte difference
         bytes node = k; int v = k[pos] + delta; if (v < 0 || v > 255) continue;
         if (force >= 0 && !(v == force || k[pos] == force)) continue;
